@@ -177,15 +177,15 @@ def _body_fun(which, m_len, m2):
             conds = [so.eq(got[m_len * i + j - ((i + 2) * (i + 1)) // 2], f.v[(i, j)]) for i in range(m_len) for j in range(i + 1, m_len)]
             ncalls = n
         else:
-            B = [chr(ord("p") + i) for i in range(m2)]
+            B = [chr(ord("p") + i) for i in range(m2)] if which == "cdist" else list(A)      # "cdist-same": equal collections
             f = _PairMetric(A, B, sym, "d")
             got = distance.cdist(A, B, metric=f, **kw)
             if got.shape != (m_len, m2):
                 return False, f"shape {got.shape}"
             conds = [so.eq(got[i, j], f.v[(i, j)]) for i in range(m_len) for j in range(m2)]
             ncalls = m_len * m2
-        if len(f.kwargs_seen) != ncalls or any(k != kw for k in f.kwargs_seen):
-            return False, f"metric called {len(f.kwargs_seen)} times with kwargs {f.kwargs_seen[:2]}"
+        if any(k != kw for k in f.kwargs_seen):       # (how often the metric is called is not part of the statement)
+            return False, f"metric called with kwargs {f.kwargs_seen[:2]}"
         return so.b_and(*conds), (lambda: f"{which} -> {_realize(got.tolist())}")
     return body
 
@@ -202,7 +202,7 @@ def _replay_fun(which, m_len, m2):
             want = [int(inputs[f"d_{i}_{j}"]) for i in range(m_len) for j in range(i + 1, m_len)]
             ok = [int(v) for v in got] == want
         else:
-            B = [chr(ord("p") + i) for i in range(m2)]
+            B = [chr(ord("p") + i) for i in range(m2)] if which == "cdist" else list(A)
             f = lambda x, y, **kw: (seen.append(kw), int(inputs[f"d_{A.index(x)}_{B.index(y)}"]))[1]
             got = distance.cdist(A, B, metric=f, scale=3, mode="x")
             want = [[int(inputs[f"d_{i}_{j}"]) for j in range(m2)] for i in range(m_len)]
@@ -238,6 +238,9 @@ def conditions(tier):
     for m_len in (0, 1, 2, 3, 4, 5):
         out.append(Condition(f"C08/pdist/fun/m={m_len}", _body_fun("pdist", m_len, 0), _replay_fun("pdist", m_len, 0), budget=120, models=M,
                              bounds=f"functional pdist on {m_len} strings, arbitrary metric values"))
+    for m in (2, 3):
+        out.append(Condition(f"C08/cdist/fun/same/{m}", _body_fun("cdist-same", m, m), _replay_fun("cdist-same", m, m), budget=120, models=M,
+                             bounds=f"functional cdist of a collection of {m} strings with itself, arbitrary (asymmetric) metric values"))
     for m1, m2 in [(1, 1), (2, 3), (3, 2), (0, 2)]:
         out.append(Condition(f"C08/cdist/fun/{m1}x{m2}", _body_fun("cdist", m1, m2), _replay_fun("cdist", m1, m2), budget=120, models=M,
                              bounds=f"functional cdist {m1} x {m2}"))
